@@ -443,7 +443,7 @@ def _mk_dc(d, ctx):
     cname = ctx.fresh("DC")
     alias_mode = ctx.dc.get("alias")
     deco = "@dataclass"
-    base = "DataClassDictMixin"
+    base = ctx.dc.get("base", "DataClassDictMixin")      # a format mixin name (bound in ctx.ns) for format-mixin classes
     extra_cfg = {}
     if variant == "plain":
         base = ""
@@ -513,11 +513,12 @@ def _mk_special(d, ctx):
     h = hint(e, ctx)
     hn = ctx.inject(h, "_h")
     n = ctx.fresh("S")
+    MB = ctx.dc.get("base", "DataClassDictMixin")
     cfg = "\n".join(_config_src(ctx))
     cfg = ("\n" + cfg) if cfg else ""
     if k == "dcgen":
         tv = f"T{n}"
-        src = (f"{tv} = TypeVar('{tv}')\n@dataclass\nclass G{n}(DataClassDictMixin, Generic[{tv}]):\n"
+        src = (f"{tv} = TypeVar('{tv}')\n@dataclass\nclass G{n}({MB}, Generic[{tv}]):\n"
                f"    x: {tv}\n    xs: List[{tv}]{cfg}\n")
         G = ctx.execute(f"G{n}", src)
         ctx.info[d] = dict(cls=G, kind=k)
@@ -525,18 +526,18 @@ def _mk_special(d, ctx):
     if k == "dcgeninh":
         tv = f"T{n}"
         src = (f"{tv} = TypeVar('{tv}')\n@dataclass\nclass G{n}(Generic[{tv}]):\n    x: {tv}\n    xs: List[{tv}]\n"
-               f"@dataclass\nclass C{n}(DataClassDictMixin, G{n}[{hn}]):\n    own: int = 3{cfg}\n")
+               f"@dataclass\nclass C{n}({MB}, G{n}[{hn}]):\n    own: int = 3{cfg}\n")
         C = ctx.execute(f"C{n}", src)
         ctx.info[d] = dict(cls=C, kind=k)
         return C
     if k == "dcinh":
-        src = (f"@dataclass\nclass B{n}(DataClassDictMixin):\n    b: {hn}\n    a: int = 1{cfg}\n"
+        src = (f"@dataclass\nclass B{n}({MB}):\n    b: {hn}\n    a: int = 1{cfg}\n"
                f"@dataclass\nclass C{n}(B{n}):\n    a: str = 's'\n    c: Optional[{hn}] = None\n")
         C = ctx.execute(f"C{n}", src)
         ctx.info[d] = dict(cls=C, kind=k)
         return C
     if k == "dcself":
-        src = (f"@dataclass\nclass N{n}(DataClassDictMixin):\n    v: {hn}\n    nxt: Optional['N{n}'] = None\n"
+        src = (f"@dataclass\nclass N{n}({MB}):\n    v: {hn}\n    nxt: Optional['N{n}'] = None\n"
                f"    kids: List['N{n}'] = field(default_factory=list){cfg}\n")
         if ctx.mode == "local":
             # a forward reference to a <locals> class can never be resolved; use the module path
@@ -546,13 +547,13 @@ def _mk_special(d, ctx):
         ctx.info[d] = dict(cls=C, kind=k)
         return C
     if k == "dcselft":
-        src = (f"@dataclass\nclass N{n}(DataClassDictMixin):\n    v: {hn}\n    nxt: Optional[typing.Self] = None\n"
+        src = (f"@dataclass\nclass N{n}({MB}):\n    v: {hn}\n    nxt: Optional[typing.Self] = None\n"
                f"    kids: List[typing.Self] = field(default_factory=list){cfg}\n")
         C = ctx.execute(f"N{n}", src)
         ctx.info[d] = dict(cls=C, kind=k)
         return C
     if k == "dcfwd":
-        src = (f"@dataclass\nclass H{n}(DataClassDictMixin):\n    x: 'L{n}'\n    y: {hn}{cfg}\n"
+        src = (f"@dataclass\nclass H{n}({MB}):\n    x: 'L{n}'\n    y: {hn}{cfg}\n"
                f"@dataclass\nclass L{n}:\n    z: {hn}\n    w: int = 0\n")
         ctx.run(src)
         H, Lc = ctx.ns[f"H{n}"], ctx.ns[f"L{n}"]
@@ -729,10 +730,12 @@ def values(d, ctx: Ctx, top=True):
 def _dd_factory(vd, ctx):
     """default_factory of a decoded DefaultDict[K, V]: the (origin) class of V when V denotes a class, else none."""
     h = hint(vd, ctx)
+    while typing.get_origin(h) is typing.Annotated:
+        h = typing.get_args(h)[0]
     o = typing.get_origin(h) or h
-    if isinstance(o, type) and o is not typing.Any:
-        return o
-    return None
+    if o in (typing.Union, types.UnionType, typing.Any) or not isinstance(o, type):
+        return None
+    return o
 
 
 def _hashable_distinct(ks):
